@@ -261,6 +261,17 @@ func vfRunHistory(ttl int64, ops []vfOp, st *vfHistStats, unit time.Duration) st
 // filter that is handed its timestamps by the caller.
 var vfBases = []time.Time{vfBase, {}, time.Unix(0, 0)}
 
+// vfSubmit hands the filter a buffer that its caller goes on using afterwards, as the obfs4 server does (the
+// value is a slice of the connection's receive buffer): what the filter remembers is the value at call time.
+func vfSubmit(f *ReplayFilter, now time.Time, v string) bool {
+	buf := append(make([]byte, 0, len(v)+8), v...)
+	got := f.TestAndSet(now, buf)
+	for i := range buf {
+		buf[i] ^= 0xa5
+	}
+	return got
+}
+
 func vfRunHistoryAt(base time.Time, ttl int64, ops []vfOp, st *vfHistStats, unit time.Duration) string {
 	if unit == 0 {
 		unit = time.Second
@@ -292,7 +303,7 @@ func vfRunHistoryAt(base time.Time, ttl int64, ops []vfOp, st *vfHistStats, unit
 			st.partial = true
 		}
 		exp0 := m.expired
-		got := f.TestAndSet(base.Add(time.Duration(now)*unit), []byte(op.V))
+		got := vfSubmit(f, base.Add(time.Duration(now)*unit), op.V)
 		want := m.testAndSet(now, op.V)
 		if m.expired > exp0 {
 			st.expiry = true
@@ -367,6 +378,7 @@ func TestVerifC11Enum(t *testing.T) {
 		return
 	}
 	c := ev.For("C11")
+	c.Assume("every value is handed over in a buffer that the caller overwrites right after the call (the obfs4 server passes a slice of its receive buffer): the filter remembers the value as it was at call time")
 	c.Rule("enum: every history of exactly L operations (value x time step in {-2..4} ticks) for TTL in {0,3} ticks, each run with a tick of 1 s and of 250 ms (thorough: also 1 ns and 1.5 s) from a fixed instant in 2023, and with a tick of 1 s from the zero time.Time and from the Unix epoch, checked after every operation (so all shorter histories are covered as prefixes); non-trivial = history with a TTL expiry and a re-insert of an expired value, or a backward clock jump over a non-empty filter; distinct by construction")
 	shard, nshards := ev.IntEnv("VERIF_SHARD", 0), ev.IntEnv("VERIF_NSHARDS", 1)
 	steps := []int64{-2, -1, 0, 1, 2, 3, 4}
@@ -486,7 +498,7 @@ func TestVerifC11Machine(t *testing.T) {
 				st.partial = true
 			}
 			exp0, ev0 := m.expired, m.evicted
-			got := f.TestAndSet(base.Add(time.Duration(now)*unit), []byte(v))
+			got := vfSubmit(f, base.Add(time.Duration(now)*unit), v)
 			want := m.testAndSet(now, v)
 			if m.expired > exp0 {
 				st.expiry = true
@@ -664,7 +676,7 @@ func TestVerifC11Concurrent(t *testing.T) {
 					defer wg.Done()
 					<-start
 					for _, v := range subs[i] {
-						res[i] = append(res[i], f.TestAndSet(now, []byte(v)))
+						res[i] = append(res[i], vfSubmit(f, now, v))
 					}
 				}(i)
 			}
